@@ -101,7 +101,8 @@ def model_params(cfg, max_conn=6, pinned=()):
     for a in cfg["apps"]:
         aorder.append(a["name"])
         apps[a["name"]] = {"id": a["id"], "auth": a["auth"], "acct": a["acct"], "peers": [name2host[x] for x in a["peers"]],
-                           "realms": list(a["realms"]), "kind": a["kind"], "handler": a["handler"] if isinstance(a["handler"], str) else "hold"}
+                           "realms": list(a["realms"]), "kind": a["kind"], "handler": a["handler"] if isinstance(a["handler"], str) else "hold",
+                           "max": a.get("max_threads", 0)}
     return {"node": {"host": nc["host"], "realm": nc["realm"], "idle": nc["idle"], "dwa": nc["dwa"], "cer": nc["cer"],
                      "cea": nc["cea"], "wakeup": nc["wakeup"], "retx": nc["retx"], "validate": nc["validate"]},
             "peerOrder": order, "peers": peers, "appOrder": aorder, "apps": apps, "maxConn": max_conn, "pinned": list(pinned)}
@@ -151,7 +152,12 @@ class Runner:
             elif ev == "req_result":
                 out.append({"ev": ev, "k": e["k"], "r": e["r"], "hbh": e["hbh"], "e2e": e["e2e"]})
             elif ev == "thread_exit":
-                out.append({"ev": ev, "th": e["th"], "exc": e["exc"]})
+                th = e["th"]
+                for pat, role in (("_wait_for_resp_msg", "app_resp"), ("_wait_for_recv_msg", "app_recv"), ("_process_recv_msg", "proc"),
+                                  ("work_read_queue", "rd"), ("work_write_queue", "wr"), ("_handle_connections", "io"), ("_collect_stats", "stats")):
+                    if pat in th:
+                        th = role
+                out.append({"ev": ev, "th": th, "exc": e["exc"]})
             elif ev == "stop_done":
                 out.append({"ev": ev, "r": e["r"], "listen": e["listen"], "nodeThreads": e["nodeThreads"]})
         self._mark = len(s.obs)
@@ -198,6 +204,10 @@ class Runner:
             w.peer_close(self._vc(act["c"]))
         elif a == "peer_reset":
             w.peer_reset(self._vc(act["c"]))
+        elif a == "send_error":
+            w.s.emit("send_error", c=act["c"])
+            self._vc(act["c"]).sock.send_script.append(-32)       # the node's next send() on this socket fails with EPIPE
+            w.run()
         elif a == "connect_result":
             w.finish_connect(self._vc(act["c"]), act["err"])
         elif a == "tick":
@@ -446,7 +456,7 @@ class Gen:
                 return {"a": "frag", "c": vc.c, "m": m, "i": i + 1, "n": n}
             return {"a": "tick"} if x < 0.9 else {"a": "peer_close", "c": vc.c}
         if usable:
-            choices += [("feed", 12), ("peer_close", 1), ("peer_reset", 1), ("garbage", 0), ("frag", 0)]
+            choices += [("feed", 12), ("peer_close", 1), ("peer_reset", 1), ("garbage", 0), ("frag", 0), ("send_error", 0)]
         if connecting:
             choices.append(("connect_result", 6))
         if self.r.held:
@@ -486,6 +496,9 @@ class Gen:
             return {"a": "feed", "c": vc.c, "ms": [self.message(vc) for _ in range(n)]}
         if a in ("peer_close", "peer_reset", "garbage"):
             return {"a": a, "c": rng.choice(usable).c}
+        if a == "send_error":
+            cand = [vc for vc in usable if not vc.sock.send_script]
+            return {"a": a, "c": rng.choice(cand).c} if cand else {"a": "tick"}
         if a == "frag":
             vc = rng.choice(usable)
             hbh, e2e = self._ids()
